@@ -258,17 +258,22 @@ def uf(name, *sorts):
     return _uf[name]
 
 
+_SUB_AS_UF = False
+
+
 def f_arith(op: str, a, b):
     """a op b for floats. Exact on finite operands (no overflow: stated assumption); otherwise
-    an uninterpreted (unknown) result except for the simple inf/nan propagation cases."""
+    add/sub follow IEEE on infinities; mul/div with an infinite operand are an uninterpreted (unknown) result."""
     Fs = F()
     unk = uf("flt_" + op + "_special", Fs, Fs, Fs)(a, b)
     both = z3.And(Fs.is_fin(a), Fs.is_fin(b))
     anynan = z3.Or(Fs.is_nan(a), Fs.is_nan(b))
     if op == "add":
-        return z3.If(both, Fs.fin(Fs.r(a) + Fs.r(b)), z3.If(anynan, Fs.nan, unk))
+        # IEEE: inf + finite = inf, inf + inf = inf, inf + (-inf) = nan
+        inf_case = z3.If(Fs.is_fin(a), b, z3.If(Fs.is_fin(b), a, z3.If(a == b, a, Fs.nan)))
+        return z3.If(both, Fs.fin(Fs.r(a) + Fs.r(b)), z3.If(anynan, Fs.nan, inf_case))
     if op == "sub":
-        return z3.If(both, Fs.fin(Fs.r(a) - Fs.r(b)), z3.If(anynan, Fs.nan, unk))
+        return f_arith("add", a, f_neg(b)) if not _SUB_AS_UF else z3.If(both, Fs.fin(Fs.r(a) - Fs.r(b)), z3.If(anynan, Fs.nan, unk))
     if op == "mul":
         return z3.If(both, Fs.fin(Fs.r(a) * Fs.r(b)), z3.If(anynan, Fs.nan, unk))
     if op == "div":
